@@ -3,7 +3,10 @@ package props
 import (
 	"bytes"
 	"fmt"
+	"math/rand"
+	"runtime"
 	"strings"
+	"sync"
 	"unicode/utf8"
 
 	"github.com/hashicorp/go-bexpr/grammar"
@@ -160,7 +163,7 @@ func c16Literal(c *mon.Ctx, s string, style int, r *xgen.Renderer) {
 	c.Distinct("lit/" + styleNames[style] + "/" + s)
 }
 
-var c16FixedStrings = []string{"", "/", "/usr/bin", "/a/b/c", "/a~1b", "/~0", "//", "/ü", "/a b", "a/b", "\"", "\"\"", "a\"b", "\\", "\\\"", "\\n", "`", "a`b", "\r", "\n", "\r\n", "\t", "\x00", "\x7f",
+var c16FixedStrings = []string{"\ufffd", "a\ufffd", "caf\ufffd\ufffd", "v1.2", "cfg.a.b", "r2024.10.3", "", "/", "/usr/bin", "/a/b/c", "/a~1b", "/~0", "//", "/ü", "/a b", "a/b", "\"", "\"\"", "a\"b", "\\", "\\\"", "\\n", "`", "a`b", "\r", "\n", "\r\n", "\t", "\x00", "\x7f",
 	"\xff", "\xc3", "é", "日本語", "😀", "\u2028", "not", "and", "or", "in", "is", "empty", "contains", "matches", "any", "all", "as", "true", "false", "nil", "null",
 	"0", "1", "-1", "1.5", "01", "-0", "1e3", "0x10", "foo", "foo.bar", "foo.0", "a_b", "x/y", " ", "  x  ", "(", ")", "{", "}", "[", "]", ",", ".", "==", "!=", "a == b", "%d", "\\x22", "\\u00e9", "~", "~0", "~1"}
 
@@ -318,6 +321,11 @@ func c19Run(c *mon.Ctx, idx int) {
 			c.Count("dumps_compared")
 		}
 	}
+	// concurrent dumps of different trees must not disturb one another (a
+	// writer that yields on every Write moves the interleaving inside a dump)
+	if idx%40 == 0 {
+		c19Concurrent(c, r, real, view)
+	}
 	// Selector.String
 	c19Sel(c, real)
 	c.Count("kind:" + kindName(view))
@@ -328,6 +336,67 @@ func c19Run(c *mon.Ctx, idx int) {
 	if idx%2003 == 0 {
 		c.Sample(map[string]any{"expression": clip(txt, 200), "dump_indent2_level0": clip(refparse.Dump(view, "  ", 0), 600)})
 	}
+}
+
+type yieldingWriter struct{ buf bytes.Buffer }
+
+func (w *yieldingWriter) Write(p []byte) (int, error) {
+	runtime.Gosched()
+	return w.buf.Write(p)
+}
+
+func c19Concurrent(c *mon.Ctx, r *rand.Rand, real grammar.Expression, view xgen.Expr) {
+	type job struct {
+		tree   grammar.Expression
+		want   string
+		indent string
+		level  int
+	}
+	jobs := []job{{real, "", "        ", 1}, {real, "", "\t\t", 2}, {real, "", "ab", 0}}
+	// a second, different tree
+	if v, err, _, _ := parsePublic("not (a == 1 and (any l as i, x { x != \"q\" or i == 2 })) or all m as k { k matches \"z\" }"); err == nil {
+		if t, ok := v.(grammar.Expression); ok {
+			jobs = append(jobs, job{t, "", "\t\tALL Va", 1}, job{t, "", " ", 3})
+		}
+	}
+	for i := range jobs {
+		vw, err := xgen.FromGrammar(jobs[i].tree)
+		if err != nil {
+			return
+		}
+		jobs[i].want = refparse.Dump(vw, jobs[i].indent, jobs[i].level)
+	}
+	for _, procs := range []int{1, 4} {
+		old := runtime.GOMAXPROCS(procs)
+		outs := make([]string, len(jobs))
+		var wg sync.WaitGroup
+		gate := make(chan struct{})
+		for i := range jobs {
+			wg.Add(1)
+			go func(i int) {
+				defer wg.Done()
+				<-gate
+				for k := 0; k < 6; k++ {
+					w := &yieldingWriter{}
+					jobs[i].tree.ExpressionDump(w, jobs[i].indent, jobs[i].level)
+					if got := w.buf.String(); got != jobs[i].want && outs[i] == "" {
+						outs[i] = got
+					}
+				}
+			}(i)
+		}
+		close(gate)
+		wg.Wait()
+		runtime.GOMAXPROCS(old)
+		for i, got := range outs {
+			if got != "" {
+				c.Violation("C19 concurrent-dump-differs "+c19Diff(got, jobs[i].want), "a dump made while other goroutines were dumping differs from the documented rendering",
+					map[string]any{"indent": fmt.Sprintf("%q", jobs[i].indent), "level": jobs[i].level, "gomaxprocs": procs, "got": clip(got, 800), "want": clip(jobs[i].want, 800)})
+				return
+			}
+		}
+	}
+	c.Count("concurrent_dump_rounds")
 }
 
 // c19Diff classifies the first differing line (for signatures).
@@ -423,7 +492,7 @@ func init() {
 		NumCases:    func(tier string) int { return tierN(tier, 12000, 500000) },
 		Run:         c19Run,
 		Required: func(tier string) []string {
-			l := []string{"dumps_compared", "selector_strings", "node:pointer-selector", "node:Or", "node:And", "node:Not", "node:Quant", "node:Match", "node:bind:0", "node:bind:1", "node:bind:2", "node:bind:3"}
+			l := []string{"dumps_compared", "concurrent_dump_rounds", "selector_strings", "node:pointer-selector", "node:Or", "node:And", "node:Not", "node:Quant", "node:Match", "node:bind:0", "node:bind:1", "node:bind:2", "node:bind:3"}
 			for _, o := range xgen.OpNames {
 				l = append(l, "node:op:"+o)
 			}
